@@ -1322,8 +1322,8 @@ def threshold_population_specs(rng, sizes, heavy=False):
     for size in sizes:
         n = rng.choice([1, 2, 2])
         inds = distinct_individuals(rng, n, size)
-        steps = [{"op": "topo", "p": 1.0, "seed": rng.randint(0, 10**6), "inst": "topo"}, {"op": "removal", "p": 0.5, "seed": rng.randint(0, 10**6), "inst": "removal"},
-                 {"op": "topo", "p": 0.5, "seed": 0, "inst": "topo"}, {"op": "removal", "p": 1.0, "seed": rng.randint(0, 10**6)}]
+        steps = [{"op": "topo", "p": 1.0, "seed": rng.randint(0, 10**6)}, {"op": "removal", "p": 0.5, "seed": rng.randint(0, 10**6)},
+                 {"op": "topo", "p": 0.5, "seed": rng.randint(0, 10**6)}, {"op": "removal", "p": 1.0, "seed": rng.randint(0, 10**6)}]
         if heavy:
             steps += [{"op": "last", "p": 0.5, "seed": rng.randint(0, 10**6)}, {"op": "speciation", "thr": 2, "seed": rng.randint(0, 10**6)},
                       {"op": "selection", "alpha": 0.125, "beta": 0.25, "tournament": 3, "seed": rng.randint(0, 10**6)}, {"op": "param", "p": 0.5, "seed": rng.randint(0, 10**6)}]
@@ -1482,7 +1482,26 @@ def drive(ctx, pid, specs, step_oracle, end_oracle, checker, corr_key, nontrivia
             for key, what, si in hits:
                 ctx.violation("oracle", key, what, dict(pipeline_a=spec_a, pipeline_b=None, later_pipelines=len(alive) - k - 1, failing_step=si))
         ctx.notes["independent_pipelines_rechecked"] = len(alive)
-    bad = core.model_mismatches(pid, IMPORTS, checker, glits, chunk=12, timeout=1200)
+    # large literals (populations of hundreds of individuals) are compiled one per shard, concurrently with the rest
+    big = [i for i, g in enumerate(glits) if len(g) > 120000]
+    small = [i for i in range(len(glits)) if i not in set(big)]
+    big_bad, big_err = [], []
+
+    def run_big():
+        try:
+            big_bad.extend(big[j] for j in core.model_mismatches(pid + "_big", IMPORTS, checker, [glits[i] for i in big], chunk=1, timeout=1800))
+        except Exception as e:  # noqa: BLE001
+            big_err.append(e)
+
+    import threading as _th
+
+    th = _th.Thread(target=run_big)
+    th.start()
+    bad = [small[j] for j in core.model_mismatches(pid, IMPORTS, checker, [glits[i] for i in small], chunk=12, timeout=1200)]
+    th.join()
+    if big_err:
+        raise big_err[0]
+    bad = sorted(bad + big_bad)
     if bad:
         # does the implementation behave like a legacy (pre-fix) variant of the model?
         agrees = {}
